@@ -99,7 +99,7 @@ def run(b, ps, tier, seed):
                          "typed_core_class": {"what": "tested programs that satisfy init_linear_b (proofs/InitLinear.v, sound for the static premise of determinism_typed_core: no drop/split/multi-name, affine bodies, initial configuration a forest): for these topo_reachable is a theorem and C03 rests only on teq_ok and tc_annotations_typed",
                                               "programs_in_class": len(lin_in), "of": len(d.programs), "ids": lin_in[:12],
                                               "drop_split_free_but_rejected_by_check": lin_out_core[:12]},
-                         "accepted_core_class": {"what": "tested programs that satisfy the SOURCE-level premises of determinism_core_accept (no assumed names, rt_syn_ok, core_src_b: no drop/split/droppable forward, one provider name per process, no empty case): by init_linear_accept (proofs/InitAccept.v) init_linear of the checker's output is a theorem for them, so C03 holds of them with no premise about runs or about the annotated program",
+                         "accepted_core_class": {"what": "tested programs that satisfy the SOURCE-level premises of determinism_core_accept (parsed, accepted, no assumed names, core_src_b: no drop/split/droppable forward, one provider name per process, no empty case): by init_linear_accept (proofs/InitAccept.v) init_linear of the checker's output is a theorem for them, so C03 holds of them with no premise about runs or about the annotated program",
                                                  "programs_in_class": len(acc_in), "of": len(d.programs), "ids": acc_in[:12],
                                                  "in_class_but_init_linear_b_false": acc_in_not_lin[:12],
                                                  "init_linear_b_true_but_outside_class": lin_not_acc[:12]},
